@@ -63,6 +63,12 @@ func checkC07(c *Ctx) {
 		c.c10ExpireAt()
 		c.c10Jitter()
 	}, func(o *coreObl) (string, bool) { return "R07.5", o.Rule == "R10.1" || o.Rule == "R10.3" || o.Rule == "R10.2" })
+	// … after a Walk — also one whose callback failed — the map still works: Walk leaves no shard lock held on any exit (C08 R08.5)
+	c.borrow("C08", func() {
+		for _, b := range backends {
+			c.c08Backend(b)
+		}
+	}, func(o *coreObl) (string, bool) { return "R07.7", o.Rule == "R08.5" && strings.HasSuffix(o.Construct, "Walk") })
 	// the expiry an entry reports (ExpireAt / ExpiredAt) is its E: tsTime is the exact inverse of ts (C10 R10.5)
 	c.borrow("C10", func() { c.c10TsInverse() }, func(o *coreObl) (string, bool) { return "R07.2", o.Rule == "R10.5" })
 	// "expired but still retrievable as stale": an expired entry stays until it has been expired for DeleteExpiredAfter (C11 R11.1)
